@@ -716,7 +716,7 @@ def build_partition(part, ptype):
 
 
 def build_rank(r, rtype):
-    return {"int": int, "np.int64": np.int64, "np.int32": np.int32}[rtype](r)
+    return {"int": int, "np.int64": np.int64, "np.int32": np.int32, "np.uint8": np.uint8, "np.intp": np.intp}[rtype](r)
 
 
 def _snapshot(obj):
@@ -1547,6 +1547,48 @@ def div_reshape(ctx):
                     tie_rank_form(ctx, lr, s, lt, st)
 
 
+def div_flagforms(ctx):
+    """Valid FALSY values of the arguments, in every numeric / container form and through every way the argument is passed:
+    rank = 0 ("no truncation") as int / numpy.int64 / int32 / uint8 / intp next to rank 1 and the top of the range, positional and by
+    keyword; a partition that consists of qubit 0 only (one-element ndarray: `not partition` is true; index 0 is falsy itself) in
+    every container next to the last qubit and to both ends; svd in both spellings valid below the randomized switch.  The rank
+    rule with rank 0 in the same forms is tied in div_reshape (tie_rank_form, lr = 0 x RTYPES) and here for the two extra types."""
+    rng = ctx.nprng()
+    rtypes = RTYPES + ["np.uint8", "np.intp"]
+    fc = itertools.cycle(DFORMS)
+    tc = itertools.cycle(["tuple", "list", "ndarray", "list-npint", "range"])
+    for n, part in ((3, [0]), (3, [2, 0]), (4, [0]), (4, [3, 1]), (5, [0, 4])):
+        mind = min(2 ** len(part), 2 ** (n - len(part)))
+        v = rand_unit(rng, 2 ** n)
+        vdef = with_spectrum(rng, n, sorted(part), [0.8, 0.6]) if mind >= 4 else v
+        for form in ("pos3", "pos4", "kw-rank", "kw-rank-svd", "kw-all", "kw-all-reordered", "mixed"):
+            for rt in rtypes:
+                for r in sorted({0, 1, mind}):
+                    for name, vec in (("rank0-forms", v),) + ((("rank0-forms-deficient", vdef),) if r != 1 and mind >= 4 else ()):
+                        form_case(ctx, mkspec(name, n, part, vec, r, ptype=next(tc), rtype=rt, form=form,
+                                              svd=("auto", "regular")[(r + len(form)) % 2]))
+                    ctx.count(f"flagforms:rank:{rt}:{'0' if r == 0 else 'top' if r == mind else '1'}")
+                    ctx.count(f"flagforms:rank:{rt}:{'0' if r == 0 else 'top' if r == mind else '1'}:via {form}")
+    for n in (3, 4):
+        v = rand_unit(rng, 2 ** n)
+        for part, tag in (([0], "qubit-0-only"), ([n - 1], "last-qubit-only"), ([0, n - 1], "both-ends"), ([n - 1, 0], "both-ends-descending")):
+            for pt in PTYPES:
+                for r in (0, 1):
+                    form_case(ctx, mkspec("partition-" + tag, n, part, v, r, ptype=pt, rtype=rtypes[(r + len(pt)) % len(rtypes)], form=next(fc),
+                                          pcomp=PCOMPS[(r + len(pt) + n) % len(PCOMPS)]))
+                    ctx.count(f"flagforms:partition:{pt}:{tag}")
+        for svd in ("auto", "regular"):
+            for form in ("pos4", "kw-rank-svd", "kw-all", "kw-all-reordered", "kw-svd-only"):
+                for r in (0, 1):
+                    form_case(ctx, mkspec("svd-forms", n, [n - 1, 0], v, r, ptype="tuple", form=form, svd=svd))
+                    ctx.count(f"flagforms:svd:{svd}:via {form}")
+    for s_ in ([1.0, 0.5, 1e-3, 1e-6], [1.0, 0.0], [0.5] * 4):
+        for lr in (0, 1, 4):
+            for lt in ("np.uint8", "np.intp"):
+                tie_rank_form(ctx, lr, s_, lt, "f64")
+    ctx.count("diversity:flagforms")
+
+
 def run_diversity(ctx):
     div_types(ctx)
     div_scale(ctx)
@@ -1555,6 +1597,7 @@ def run_diversity(ctx):
     div_sizes(ctx)
     div_comp(ctx)
     div_reshape(ctx)
+    div_flagforms(ctx)
     ctx.notes.append("diversity cases: element/container types of state, partition, rank and of the composition's factors; light-tail "
                      "spectra 1e-3 / 3e-5 (band [1e-9, 1e-5]) and 1e-6 (band (5e-8, 2e-7)); single precision compared with the up-cast "
                      f"input to {TOL32} and only on states with all coefficients >= 3e-4 or exact basis states; rank=None and factors "
